@@ -184,6 +184,13 @@ func (sms *sqlMetadataStore) AppendObject(ctx context.Context, tx *sql.Tx, bucke
 		return nil, err
 	}
 
+	// Only the null version is extended in place. A delete marker or a version
+	// that carries a version id (written while versioning was enabled) must not
+	// change: the append then writes the null version like PutObject does.
+	if oldObjectEntity != nil && (oldObjectEntity.IsDeleteMarker || (oldObjectEntity.VersionID != nil && *oldObjectEntity.VersionID != "null")) {
+		return sms.PutObject(ctx, tx, bucketName, obj, nil)
+	}
+
 	if oldObjectEntity != nil {
 		existingParts, err := sms.partRepository.FindPartsByObjectIdOrderBySequenceNumberAsc(ctx, tx, *oldObjectEntity.Id)
 		if err != nil {
